@@ -1,7 +1,7 @@
 (* Soundness of the GoLite analysis: panic-freedom under the computed length bounds and
    persistence of verdicts under extension of the header. *)
 From Verif Require Import Base.Bytes Model.GoLite Proofs.BytesP.
-Open Scope nat_scope.
+Local Open Scope nat_scope.
 
 Definition sound1 (e : bexp) (i : info) (raw : bytes) : Prop :=
   exists v, evalb e raw = Val v
